@@ -35,6 +35,26 @@ def terminates(stmts):
     return False
 
 
+def is_pure(e):
+    """no assignment, increment or call anywhere inside"""
+    if not isinstance(e, list) or not e:
+        return True
+    k = e[0]
+    if k in ("v", "c", "g", "null", "enum", "str"):
+        return True
+    if k == "ld":
+        return is_pure(e[1]) and is_pure(e[2])
+    if k == "bin":
+        return is_pure(e[2]) and is_pure(e[3])
+    if k == "un":
+        return is_pure(e[2])
+    if k == "cast":
+        return is_pure(e[1])
+    if k == "cond":
+        return is_pure(e[1]) and is_pure(e[2]) and is_pure(e[3])
+    return False
+
+
 def normalize(stmts, is_c):
     """common normal form of both sides"""
     out = []
@@ -51,6 +71,8 @@ def normalize(stmts, is_c):
             e = s[1]
             if e[0] == "asg":
                 out.append(["assign", e[1], e[2], None, s[-1]])
+            elif is_pure(e):
+                pass        # a value computed and discarded (e.g. the untaken arm of a lowered ?:)
             else:
                 out.append(["effect", e, s[-1]])
         elif k == "if":
@@ -103,6 +125,20 @@ class Lockstep(vcgen.Unit):
         self.pev.globals = dict(self.consts)
         self.pev.call_handler = self.py_call
         self.pev.float_is_neutral = True
+        # a variable only the C side has assigned so far is unbound in the definition
+        _pv, _pa = self.pev.ev_v, self.pev.assign
+
+        def p_read(e, st):
+            if e[1] in getattr(st, "pundef", ()):
+                raise Misaligned("definition reads %s, which only the C side has assigned" % e[1])
+            return _pv(e, st)
+
+        def p_assign(lv, v, st, src_ty=None):
+            if lv[0] == "v" and getattr(st, "pundef", None):
+                st.pundef = set(st.pundef) - {lv[1]}
+            return _pa(lv, v, st, src_ty)
+        self.pev.ev_v = p_read
+        self.pev.assign = p_assign
         # both evaluators share the universally valid facts
         self.pev.facts = self.ev.facts
         self.pev._fact_ids = self.ev._fact_ids
@@ -165,6 +201,22 @@ class Lockstep(vcgen.Unit):
                 rest = cs[i:] if i < len(cs) else ps[j:]
                 raise Misaligned("one side has extra statements (%s ...) at line %s" % (rest[0][0], rest[0][-1]))
             c, p = cs[i], ps[j]
+            if c[0] in ("assign", "effect") and p[0] in ("assign", "effect"):
+                # maximal runs of simple statements on both sides
+                i2, j2 = i, j
+                while i2 < len(cs) and cs[i2][0] in ("assign", "effect", "declare"):
+                    i2 += 1
+                while j2 < len(ps) and ps[j2][0] in ("assign", "effect"):
+                    j2 += 1
+                crun = [x for x in cs[i:i2] if x[0] != "declare"]
+                prun = ps[j:j2]
+                if len(crun) != len(prun):
+                    for d in cs[i:i2]:
+                        if d[0] == "declare":
+                            cur.types[d[1]] = unconst(d[2])
+                    cur = self.group_pair(crun, prun, cur, c[-1])
+                    i, j = i2, j2
+                    continue
             res = self.pair_stmt(c, p, cur)
             falls = [s for o, s in res if o == "fall"]
             done.extend((o, s) for o, s in res if o != "fall")
@@ -213,6 +265,54 @@ class Lockstep(vcgen.Unit):
             vb = self.ev.coerce(v2, ety) if ety != "py" and not same_signed else v2
             va = self.ev.coerce(v1, ety) if ety != "py" and not (sty1 and unconst(sty1) == ety and ety != "bool") else v1
             self.ob("E.value", self.same(va, vb), st, "%s[...]: same value written on both sides" % arr1, line)
+        if getattr(b, "pundef", None) is not None:
+            a.pundef = set(b.pundef)
+        self.aligned_pairs += 1
+        return a
+
+    def group_pair(self, crun, prun, st, line):
+        """runs of simple statements of different length (a temporary folded into an expression, an
+        increment written inside a subscript, an initialisation only C needs): run each side on a fork and
+        compare the net effect.  Only a variable that C assigns and the definition does not may differ; the
+        definition must not read it before assigning it (checked at every later read)."""
+        a, b = st.fork(), st.fork()
+        clog, plog = [], []
+        for c in crun:
+            self._run_simple(self.ev, c, a, clog, keep_src=True)
+        for p in prun:
+            self._run_simple(self.pev, p, b, plog)
+        def changed(x):
+            return {n for n, v in x.vars.items() if n not in st.vars or st.vars[n].t.get_id() != v.t.get_id() or st.vars[n].arr != v.arr}
+        ca, pa = changed(a), changed(b)
+        for c in crun:
+            if c[0] == "assign" and c[1][0] == "v":
+                ca.add(c[1][1])
+        for p in prun:
+            if p[0] == "assign" and p[1][0] == "v":
+                pa.add(p[1][1])
+        if pa - ca:
+            raise Misaligned("different targets: definition assigns %s, C does not (line %s)" % (sorted(pa - ca), line))
+        for n in sorted(ca & pa):
+            va, vb = a.vars[n], b.vars[n]
+            ty = a.types.get(n)
+            same_signed = ty in ("i32", "i64") and self._last_src.get(n) == ty
+            if ty and ty != "py" and vb.k != "ptr" and not same_signed:
+                vb = self.ev.coerce(vb, ty)
+            self.ob("E.value", self.same(va, vb), st, "%s: same value after the statement group" % n, line)
+        arrs_c = [x[0] for x in clog]
+        arrs_p = [x[0] for x in plog]
+        if sorted(arrs_c) != sorted(arrs_p) or len(set(arrs_c)) != len(arrs_c):
+            raise Misaligned("statement groups store differently (line %s)" % line)
+        pmap = {x[0]: x for x in plog}
+        for (arr1, i1, v1, sty1) in clog:
+            _a, i2, v2, _s = pmap[arr1]
+            self.ob("E.index", i1 == i2, st, "%s[...]: same index written on both sides" % arr1, line)
+            ety = self.ev.elem.get(arr1, "py")
+            same_signed = bool(sty1) and unconst(sty1) == ety and ety in ("i32", "i64")
+            vb = self.ev.coerce(v2, ety) if ety != "py" and not same_signed else v2
+            va = self.ev.coerce(v1, ety) if ety != "py" and not (sty1 and unconst(sty1) == ety and ety != "bool") else v1
+            self.ob("E.value", self.same(va, vb), st, "%s[...]: same value written on both sides" % arr1, line)
+        a.pundef = set(getattr(b, "pundef", ())) | (ca - pa)
         self.aligned_pairs += 1
         return a
 
@@ -227,11 +327,12 @@ class Lockstep(vcgen.Unit):
             return va.t == vb.t
         return to_int(va) == to_int(vb)
 
-    def _run_simple(self, ev, s, st, log):
+    def _run_simple(self, ev, s, st, log, keep_src=False):
         orig = ev.store
         orig_assign = ev.assign
         if ev is self.ev:
-            self._last_src = {}
+            if not keep_src:
+                self._last_src = {}
 
             def logging_assign(lv, v, st_, src_ty=None):
                 if lv[0] == "v":
